@@ -37,7 +37,8 @@ func vhCbR(m api.ResponseMessage) {
 // C14: response callbacks (per counter) and result callbacks of local features.
 func VH_c14_callbacks() {
 	kinds := []string{"reply", "result", "reply-to-nodemanagement"}
-	ki := verifrt.ShardChoice("kind", len(kinds))
+	cs := verifrt.ShardChoice("case", len(kinds)*2*3)
+	ki, arrivals, firstRef := cs/6, (cs/3)%2+1, cs%3
 	verifrt.Scenario(kinds[ki])
 	vhCalls = nil
 	w := vhNewWorld(vhWorldOpts{noEvents: true})
@@ -47,7 +48,9 @@ func VH_c14_callbacks() {
 		feats = []api.FeatureLocalInterface{nm, w.F3}
 	}
 	c1, c2 := verifrt.U64("counter1"), verifrt.U64("counter2")
-	verifrt.Assume(c1 != c2)
+	// (above the handful of counters the stack itself used while connecting, so that the references below do not
+	// accidentally answer one of its own pending requests)
+	verifrt.Assume(verifrt.All(c1 != c2, c1 > 1000, c2 > 1000))
 	ctrs := []uint64{c1, c2}
 	// registrations: for feature 0: cbA on counter1 (maybe), cbB on counter1 (maybe), cbA on counter2 (maybe); feature 1: cbA on counter1 (maybe)
 	type reg struct {
@@ -63,7 +66,7 @@ func VH_c14_callbacks() {
 			verifrt.Assert("first-registration-accepted", err == nil)
 		}
 	}
-	if regs[0].on && verifrt.Concrete(verifrt.Bool("register-again")) {
+	if regs[0].on && !regs[1].on && !regs[2].on && !regs[3].on {
 		err := feats[0].AddResponseCallback(model.MsgCounterType(ctrs[0]), vhCbA)
 		verifrt.Reach("duplicate-registration")
 		verifrt.Assert("same-callback-twice-for-one-counter-is-refused", err != nil)
@@ -74,7 +77,6 @@ func VH_c14_callbacks() {
 	}
 
 	// ---- arrivals
-	arrivals := verifrt.Choice("arrivals", 2) + 1
 	type arr struct {
 		f      int
 		ref    uint64
@@ -85,15 +87,30 @@ func VH_c14_callbacks() {
 	var arrs []arr
 	for i := 0; i < arrivals; i++ {
 		tag := fmt.Sprintf("arrival[%d]", i)
-		a := arr{f: verifrt.Choice(tag+".feature", 2), peer: verifrt.Choice(tag+".peer", 2), hasRef: verifrt.Concrete(verifrt.Bool(tag + ".hasRef")), ok: true}
-		switch verifrt.Choice(tag+".ref", 3) {
+		a := arr{f: verifrt.Choice(tag+".feature", 2), hasRef: true, ok: true}
+		if i == 0 {
+			a.hasRef = verifrt.Concrete(verifrt.Bool(tag + ".hasRef"))
+			if arrivals == 1 {
+				a.peer = verifrt.Choice(tag+".peer", 2) // (with two arrivals both come from peer A)
+			}
+			if !a.hasRef {
+				verifrt.Scenario(kinds[ki] + "/missing-reference")
+			}
+		} else {
+			a.peer = arrs[0].peer // the second arrival comes from the same peer and carries a reference
+		}
+		refSel := firstRef
+		if i > 0 {
+			refSel = verifrt.Choice(tag+".ref", 3)
+		}
+		switch refSel {
 		case 0:
 			a.ref = c1
 		case 1:
 			a.ref = c2
 		default:
 			a.ref = verifrt.U64(tag + ".otherRef")
-			verifrt.Assume(verifrt.All(a.ref != c1, a.ref != c2))
+			verifrt.Assume(verifrt.All(a.ref != c1, a.ref != c2, a.ref > 1000))
 		}
 		r, _, dev := w.peer(a.peer)
 		src := vhAddr(dev, []uint{1}, 2) // the peers' LoadControl server
@@ -101,7 +118,7 @@ func VH_c14_callbacks() {
 		cl := model.CmdClassifierTypeReply
 		switch ki {
 		case 0:
-			if verifrt.Concrete(verifrt.Bool(tag + ".unacceptable")) {
+			if arrivals == 1 && verifrt.Concrete(verifrt.Bool(tag+".unacceptable")) {
 				// a function the source feature's type does not have: the reply is rejected
 				cmd = model.CmdType{MeasurementListData: &model.MeasurementListDataType{}}
 				a.ok = false
